@@ -228,6 +228,35 @@ func runC19(c *an.Ctx) {
 		{"removeOutputParam", append(append([]string{}, bindingHolders...), "Pipeline.Retain", "PipelineRetains.Refs")},
 		{"removeUnusedCalls", append(append([]string{}, bindingHolders...), "Pipeline.Retain", "PipelineRetains.Refs")},
 	}
+	// the mechanism itself, its closures and the helpers it calls directly (a shared walker such as
+	// forEachBinding(pipe, visit)); other mechanisms of the table are not followed
+	mechOf := func(fn *ssa.Function) map[*ssa.Function]bool {
+		mech := map[*ssa.Function]bool{}
+		var walkM func(g *ssa.Function)
+		walkM = func(g *ssa.Function) {
+			if g == nil || mech[g] || !inRefac(g) {
+				return
+			}
+			if g != fn && g.Parent() == nil {
+				for _, o := range perFn {
+					if (strings.HasPrefix(o.fn, "(") && p.Func(pkgRefac, o.fn) == g) || (!strings.HasPrefix(o.fn, "(") && sp.Func(o.fn) == g) {
+						return
+					}
+				}
+			}
+			mech[g] = true
+			for _, a := range g.AnonFuncs {
+				walkM(a)
+			}
+			an.Instrs(g, func(in ssa.Instruction) {
+				if cl := an.AsCallAny(in); cl != nil {
+					walkM(cl.Common().StaticCallee())
+				}
+			})
+		}
+		walkM(fn)
+		return mech
+	}
 	for _, pf := range perFn {
 		var fn *ssa.Function
 		if strings.HasPrefix(pf.fn, "(") {
@@ -239,7 +268,8 @@ func runC19(c *an.Ctx) {
 			c.Undecided("G1", "mechanism("+pf.fn+")", token.NoPos, "function not found")
 			continue
 		}
-		got := fieldsRead(map[*ssa.Function]bool{fn: true})
+		mech := mechOf(fn)
+		got := fieldsRead(mech)
 		var missing []string
 		for _, f := range pf.fields {
 			if !got[f] {
@@ -254,6 +284,7 @@ func runC19(c *an.Ctx) {
 	ruleG3(c, p.FuncsOf(pkgRefac))
 	ruleG4(c, p.FuncsOf(pkgRefac))
 	ruleG6(c, sp, inRefac)
+	ruleG7(c, sp, mechOf)
 
 	// ---------------- G2 ----------------
 	walkers := []struct {
